@@ -51,6 +51,7 @@ pub struct MarketCensus {
     pub sessions_where_2_assets_share_ids_and_trade: u64,
     pub all_asset_queries_checked: u64,
     pub counter_resets: u64,
+    pub book_level_clock_moves: u64,
     pub ledger_audits: u64,
     pub ledger_trades_audited: u64,
     pub per_assets: [u64; 6],
@@ -59,7 +60,7 @@ pub struct MarketCensus {
 impl MarketCensus {
     pub fn merge(&mut self, o: &MarketCensus) {
         macro_rules! add { ($($f:ident),*) => { $( self.$f += o.$f; )* } }
-        add!(sessions, ops, creations, rejected_creations, trades, cancels, modifies, events, toggles, ops_while_disabled, market_rejected, reloads, fork_comparisons, shared_local_ids_with_different_contents, sessions_where_2_assets_share_ids_and_trade, all_asset_queries_checked, counter_resets, ledger_audits, ledger_trades_audited);
+        add!(sessions, ops, creations, rejected_creations, trades, cancels, modifies, events, toggles, ops_while_disabled, market_rejected, reloads, fork_comparisons, shared_local_ids_with_different_contents, sessions_where_2_assets_share_ids_and_trade, all_asset_queries_checked, counter_resets, book_level_clock_moves, ledger_audits, ledger_trades_audited);
         for i in 0..6 {
             self.per_assets[i] += o.per_assets[i];
         }
@@ -156,6 +157,7 @@ pub fn market_session<const A: usize, const L: usize>(cfg: &MarketCfg, cs: &mut 
     // trade after the last counter reset it issued for that asset
     let mut led_log: Vec<Vec<RTrade>> = vec![Vec::new(); A];
     let mut led_from: Vec<usize> = vec![0; A];
+    let mut tk: Vec<u64> = vec![t0; A]; // each asset's own clock as set by the harness
 
     let price = |rng: &mut Sm, a: usize| -> u32 {
         let c = centers[a];
@@ -191,6 +193,16 @@ pub fn market_session<const A: usize, const L: usize>(cfg: &MarketCfg, cs: &mut 
             for b in sh.iter_mut() {
                 b.set_time(t);
             }
+            tk.iter_mut().for_each(|x| *x = t);
+        } else if A >= 2 && rng.chance(0.3) {
+            // one asset's book advanced on its own (through get_order_book_mut): the books' clocks differ until the next
+            // market-wide set_time; nothing else about any asset may change, and reloads must keep every book's own clock
+            t += rng.range(1, 4);
+            log.push(format!("asset {} book-level set_time {}", a, t));
+            m.get_order_book_mut(a).set_time(t);
+            sh[a].set_time(t);
+            tk[a] = t;
+            cs.book_level_clock_moves += 1;
         }
         let trades_before: Vec<usize> = (0..A).map(|k| sh[k].get_trades().len()).collect();
         let r = rng.below(100);
@@ -424,7 +436,7 @@ pub fn market_session<const A: usize, const L: usize>(cfg: &MarketCfg, cs: &mut 
         if on(MK_FLAG) && !trading && !mixed_flags {
             // market orders are rejected
             if let Some(o) = sh[a].get_orders().last() {
-                if r < 45 && o.arr_time == t && (o.price == PMAX && matches!(o.side, bourse_book::types::Side::Bid) || o.price == 0) && o.status != bourse_book::types::Status::New {
+                if r < 45 && o.arr_time == tk[a] && (o.price == PMAX && matches!(o.side, bourse_book::types::Side::Bid) || o.price == 0) && o.status != bourse_book::types::Status::New {
                     cs.market_rejected += 1;
                     if o.status != bourse_book::types::Status::Rejected {
                         return mfail(i, "flag", "market_order_not_rejected", format!("{:?}", conv_order(o)), &log);
@@ -443,7 +455,7 @@ pub fn market_session<const A: usize, const L: usize>(cfg: &MarketCfg, cs: &mut 
                 for x in &tr[led_log[k].len()..] {
                     let (act, pas) = (conv_order(orders[x.active]), conv_order(orders[x.passive]));
                     let admits = if act.bid { x.price <= act.price } else { x.price >= act.price };
-                    if x.t != t || x.vol == 0 || act.bid == pas.bid || x.price != pas.price || x.bid != pas.bid || !admits || k != a {
+                    if x.t != tk[k] || x.vol == 0 || act.bid == pas.bid || x.price != pas.price || x.bid != pas.bid || !admits || k != a {
                         return mfail(i, "ledger", "trade_record", format!("asset {} (operation on asset {}) at t={}: {:?} active {:?} passive {:?}", k, a, t, x, act, pas), &log);
                     }
                     cs.ledger_trades_audited += 1;
